@@ -41,6 +41,7 @@ type walkVisit struct {
 	guarded bool // inside an if on a field of the subject
 	chain   ast.Expr
 	call    *ast.CallExpr
+	idx     int // index of the call event on the path
 }
 
 func rulesC19(r *Run) {
@@ -78,190 +79,126 @@ func rulesC19(r *Run) {
 			r.Unresolved("R1", s.fnKey+" subject parameter")
 			continue
 		}
-		var root ast.Node = fn.Decl.Body
+		// the walk is the function body, or for Plan the literal it returns
+		var fl *Flow
+		var paths []Path
+		var okp bool
 		if short == "Plan" {
-			// the walk is the returned literal
+			var lit *ast.FuncLit
 			for _, l := range AllLits(fn.Decl.Body) {
-				root = l.Body
+				lit = l
 			}
-		}
-		parents := parentMap(root)
-		var visits []walkVisit
-		var appendPos token.Pos
-		var appendOK bool
-		ast.Inspect(root, func(n ast.Node) bool {
-			switch x := n.(type) {
-			case *ast.AssignStmt:
-				// chain = append(chain, subj)   |   chain := []workflow.Object{p}
-				if len(x.Lhs) == 1 && len(x.Rhs) == 1 {
-					if id, ok := x.Lhs[0].(*ast.Ident); ok && id.Name == "chain" {
-						appendPos = x.Pos()
-						switch rhs := ast.Unparen(x.Rhs[0]).(type) {
-						case *ast.CallExpr:
-							if fid, ok := rhs.Fun.(*ast.Ident); ok && fid.Name == "append" && len(rhs.Args) == 2 {
-								if aid, ok := rhs.Args[0].(*ast.Ident); ok && aid.Name == "chain" && ObjOf(info, rhs.Args[1]) == subj {
-									appendOK = true
-								}
-							}
-						case *ast.CompositeLit:
-							if len(rhs.Elts) == 1 && ObjOf(info, rhs.Elts[0]) == subj {
-								appendOK = true
-							}
-						}
-					}
-				}
-			case *ast.CallExpr:
-				v := walkVisit{pos: x.Pos(), call: x}
-				if f, ok := calleeFunc(info, x); ok && visitors[FuncKey(f)] && len(x.Args) == 3 {
-					v.kind = f.Name()
-					v.chain = x.Args[1]
-					fld := ""
-					for _, want := range s.want {
-						if want == "" {
-							continue
-						}
-						if _, m := FieldPath(info, x.Args[2], s.typ, want); m {
-							fld = want
-						}
-					}
-					if fld == "" {
-						// the range value of a loop over a list field
-						for p := parents[x]; p != nil; p = parents[p] {
-							if rs, ok := p.(*ast.RangeStmt); ok && rs.Value != nil && SameObj(info, rs.Value, x.Args[2]) {
-								for _, want := range s.want {
-									if want != "" {
-										if _, m := FieldPath(info, rs.X, s.typ, want); m {
-											fld = want
-										}
-									}
-								}
-							}
-						}
-					}
-					v.field = fld
-					if fld == "" {
-						v.field = "?" + ExprStr(x.Args[2])
-					}
-				} else if id, ok := x.Fun.(*ast.Ident); ok && id.Name == "yield" && len(x.Args) == 1 {
-					v.kind = "yield"
-					item := ast.Unparen(x.Args[0])
-					if iid, ok := item.(*ast.Ident); ok {
-						if def := localDef(info, root, iid); def != nil {
-							item = ast.Unparen(def)
-						}
-					}
-					cl, ok := item.(*ast.CompositeLit)
-					if !ok {
-						v.field = "?" + ExprStr(x.Args[0])
-					} else {
-						val := keyValue(cl, "Value")
-						v.chain = keyValue(cl, "Chain")
-						switch {
-						case val != nil && ObjOf(info, val) == subj:
-							v.field = ""
-						default:
-							v.field = "?" + ExprStr(val)
-							for p := parents[x]; p != nil; p = parents[p] {
-								if rs, ok := p.(*ast.RangeStmt); ok && rs.Value != nil && val != nil && SameObj(info, rs.Value, val) {
-									for _, want := range s.want {
-										if want != "" {
-											if _, m := FieldPath(info, rs.X, s.typ, want); m {
-												v.field = want
-											}
-										}
-									}
-								}
-							}
-						}
-					}
-				} else {
-					return true
-				}
-				for p := parents[x]; p != nil; p = parents[p] {
-					switch y := p.(type) {
-					case *ast.RangeStmt, *ast.ForStmt:
-						v.inLoop = true
-					case *ast.IfStmt:
-						if containsNode(y.Body, x) && mentionsObj(info, y.Cond, subj) && !containsNode(y.Cond, x) {
-							v.guarded = true
-						}
-					}
-				}
-				visits = append(visits, v)
+			if lit == nil {
+				r.Unresolved("R1", s.fnKey+" returned literal")
+				continue
 			}
-			return true
-		})
-		sort.Slice(visits, func(i, j int) bool { return visits[i].pos < visits[j].pos })
-		var got []string
-		for _, v := range visits {
-			got = append(got, v.field)
+			fl, paths, okp = r.litPaths("R1", lit)
+		} else {
+			fl, paths, okp = r.flowPaths("R1", fn)
 		}
-		r.Evals += len(visits)
-		r.Check("R1", "visit-order:"+short, fn.Decl.Pos(), strings.Join(got, ",") == strings.Join(s.want, ","), "%s visits %v, expected %v (self, then execution order, each child-bearing field exactly once)", short, showFields(got), showFields(s.want))
-		// self first, unconditional; lists in loops
-		bad := ""
-		for i, v := range visits {
-			if v.field == "" && (i != 0 || v.guarded || v.inLoop) {
-				bad = "the object itself is not yielded first and unconditionally (an object with absent or empty children would never be visited)"
+		if !okp {
+			continue
+		}
+		st, _ := r.P.StructOf("workflow", strings.TrimPrefix(s.typ, "workflow."))
+		isList := map[string]bool{}
+		for k := 0; st != nil && k < st.NumFields(); k++ {
+			_, l := st.Field(k).Type().(*types.Slice)
+			isList[st.Field(k).Name()] = l
+		}
+		subjNil := func(e ast.Expr) (string, bool, bool) {
+			if x, op, ok := IsNilCompare(info, e); ok && ObjOf(info, x) == subj {
+				return "subject-nil", op == token.NEQ, true
 			}
-			if st, _ := r.P.StructOf("workflow", strings.TrimPrefix(s.typ, "workflow.")); st != nil && v.field != "" && !strings.HasPrefix(v.field, "?") {
-				for k := 0; k < st.NumFields(); k++ {
-					if st.Field(k).Name() == v.field {
-						_, isList := st.Field(k).Type().(*types.Slice)
-						if isList != v.inLoop && bad == "" {
-							bad = "field " + v.field + " is visited " + map[bool]string{true: "inside", false: "outside"}[v.inLoop] + " a loop"
-						}
-					}
-				}
+			return "", false, false
+		}
+		var best []walkVisit
+		badOrder, badShape, badChain := "", "", ""
+		var posShape, posChain = fn.Decl.Pos(), fn.Decl.Pos()
+		for i := range paths {
+			p := &paths[i]
+			if p.Exit != ExitReturn {
+				continue
 			}
-		}
-		// every child-bearing field of the type is among the visits
-		if st, _ := r.P.StructOf("workflow", strings.TrimPrefix(s.typ, "workflow.")); st != nil {
-			for k := 0; k < st.NumFields(); k++ {
-				f := st.Field(k)
-				t := f.Type()
-				if sl, ok := t.(*types.Slice); ok {
-					t = sl.Elem()
-				}
-				if workflowObjTypes[ShortType(t)] && f.Exported() {
-					found := false
-					for _, v := range visits {
-						if v.field == f.Name() {
-							found = true
-						}
-					}
-					if !found && bad == "" {
-						bad = "the objects held in " + s.typ + "." + f.Name() + " are never visited"
-					}
-				}
+			visits, appendIdx, chainObj := walkVisitsOnPath(fl, p, subj, s.typ, s.want, visitors)
+			r.Evals += len(visits)
+			if len(visits) > len(best) {
+				best = visits
 			}
-		}
-		r.Check("R1", "visit-shape:"+short, fn.Decl.Pos(), bad == "", "%s", orOK(bad, "self first and unconditional; lists in loops; every child-bearing field visited"))
-
-		// R2 chains
-		bad = ""
-		if !appendOK {
-			bad = "no `chain = append(chain, <the object>)` (or `[]Object{p}` at the root): descendants would not get this object as an ancestor"
-		}
-		for _, v := range visits {
-			cid, _ := ast.Unparen(v.chain).(*ast.Ident)
-			if v.chain == nil || cid == nil || cid.Name != "chain" {
-				if short == "Plan" && v.field == "" && v.chain == nil {
-					continue // the plan itself has no ancestors
-				}
-				if bad == "" {
-					bad = "the visit of " + showField(v.field) + " is given " + ExprStr(v.chain) + " instead of the walker's own `chain` (unrecognised idiom: the ancestors handed on must be exactly the chain received extended by this object, freshly appended for each visit)"
+			if len(visits) == 0 {
+				if !PathRefuted(fl, p, -1, map[string]bool{"subject-nil": false}, subjNil) && badShape == "" {
+					badShape = "a path of " + short + " returns without yielding the object although it is not nil (exit guard " + ExitGuardKey(fl, p) + "): an object with absent or empty children would never be visited"
 				}
 				continue
 			}
-			if v.field == "" && appendPos.IsValid() && v.pos > appendPos && bad == "" {
-				bad = "the object is yielded with a chain that already contains itself"
+			if (visits[0].field != "" || visits[0].inLoop) && badShape == "" {
+				badShape, posShape = "the object itself is not yielded first and unconditionally (first visit on a path: "+showField(visits[0].field)+")", visits[0].pos
 			}
-			if v.field != "" && appendPos.IsValid() && v.pos < appendPos && bad == "" {
-				bad = "the visit of " + showField(v.field) + " happens before the object is appended to the chain"
+			// order: a subsequence of the expected order, every field at most once
+			wi := 0
+			for _, v := range visits {
+				for wi < len(s.want) && s.want[wi] != v.field {
+					wi++
+				}
+				if wi >= len(s.want) && badOrder == "" {
+					var got []string
+					for _, x := range visits {
+						got = append(got, x.field)
+					}
+					badOrder = "a path visits " + strings.Join(showFields(got), ",") + ", which is not in the expected order " + strings.Join(showFields(s.want), ",")
+				}
+				wi++
+				if v.field != "" && !strings.HasPrefix(v.field, "?") && isList[v.field] != v.inLoop && badShape == "" {
+					badShape, posShape = "field "+v.field+" is visited "+map[bool]string{true: "inside", false: "outside"}[v.inLoop]+" a loop", v.pos
+				}
+				// R2: ancestors
+				cobj := ObjOf(info, v.chain)
+				switch {
+				case v.chain == nil && short == "Plan" && v.field == "":
+					// the plan itself has no ancestors
+				case v.chain == nil || cobj == nil || (chainObj != nil && cobj != chainObj) || ShortTypeOfSliceElem(cobj.Type()) != "workflow.Object":
+					if badChain == "" {
+						badChain, posChain = "the visit of "+showField(v.field)+" is given "+ExprStr(v.chain)+" instead of the walker's own chain (the ancestors handed on must be exactly the chain received, extended by this object)", v.pos
+					}
+				case v.field == "" && appendIdx >= 0 && v.idx > appendIdx:
+					if badChain == "" {
+						badChain, posChain = "the object is yielded with a chain that already contains itself", v.pos
+					}
+				case v.field != "" && (appendIdx < 0 || v.idx < appendIdx):
+					if badChain == "" {
+						badChain, posChain = "the visit of "+showField(v.field)+" happens before the object is appended to the chain (or it never is): descendants would not get this object as an ancestor", v.pos
+					}
+				}
 			}
 		}
-		r.Check("R2", "ancestors:"+short, fn.Decl.Pos(), bad == "", "%s", orOK(bad, "self carries the received chain; children get append(chain, self)"))
+		var got []string
+		for _, v := range best {
+			got = append(got, v.field)
+		}
+		if badOrder == "" && strings.Join(got, ",") != strings.Join(s.want, ",") {
+			badOrder = short + " visits " + strings.Join(showFields(got), ",") + " on its fullest path, expected " + strings.Join(showFields(s.want), ",")
+		}
+		r.Check("R1", "visit-order:"+short, fn.Decl.Pos(), badOrder == "", "%s (self, then execution order, each child-bearing field exactly once)", orOK(badOrder, "visits "+strings.Join(showFields(s.want), ",")))
+		// every child-bearing field of the type is among the visits
+		for k := 0; st != nil && k < st.NumFields(); k++ {
+			f := st.Field(k)
+			t := f.Type()
+			if sl, ok := t.(*types.Slice); ok {
+				t = sl.Elem()
+			}
+			if workflowObjTypes[ShortType(t)] && f.Exported() {
+				found := false
+				for _, v := range best {
+					if v.field == f.Name() {
+						found = true
+					}
+				}
+				if !found && badShape == "" {
+					badShape = "the objects held in " + s.typ + "." + f.Name() + " are never visited"
+				}
+			}
+		}
+		r.Check("R1", "visit-shape:"+short, posShape, badShape == "", "%s", orOK(badShape, "self first and unconditional; lists in loops; every child-bearing field visited"))
+		r.Check("R2", "ancestors:"+short, posChain, badChain == "", "%s", orOK(badChain, "self carries the received chain; children get append(chain, self)"))
 
 		// R3 early stop
 		nSites += ruleYieldDiscipline(r, "R3", fn, visitors)
@@ -912,4 +849,147 @@ func ruleBlockArgs(r *Run, rule string) {
 		}
 	}
 	r.Check(rule, "AddBlock:every-arg-copied", fn.Decl.Pos(), len(missing) == 0 && len(crossed) == 0, "AddBlock drops BlockArgs fields %v and copies %v into a different field: the built block differs from the one described", missing, crossed)
+}
+
+// ShortTypeOfSliceElem: "pkg.Name" of the element type of a slice type ("" otherwise).
+func ShortTypeOfSliceElem(t types.Type) string {
+	if sl, ok := t.Underlying().(*types.Slice); ok {
+		return ShortType(sl.Elem())
+	}
+	return ""
+}
+
+// loopsOnPath lists the range loops the event at index idx executes in: the loops entered earlier
+// on the path, at the same inlining depth, whose body contains the event.
+func loopsOnPath(p *Path, idx int) []*ast.RangeStmt {
+	ev := p.Ev[idx]
+	var out []*ast.RangeStmt
+	seen := map[*ast.RangeStmt]bool{}
+	for j := idx - 1; j >= 0; j-- {
+		e := p.Ev[j]
+		if e.Kind != EvRange || !e.Taken || e.Depth != ev.Depth {
+			continue
+		}
+		rs, ok := e.Clause.(*ast.RangeStmt)
+		if !ok || seen[rs] {
+			continue
+		}
+		if rs.Body.Pos() <= ev.Pos && ev.Pos <= rs.Body.End() {
+			seen[rs] = true
+			out = append(out, rs)
+		}
+	}
+	return out
+}
+
+// walkVisitsOnPath extracts, in execution order, the visits a walker performs on one path: calls of
+// the yield function and of the other walkers, wherever they are written (in place or in a helper
+// whose body the path engine spliced in; the inside of an inlined walker is that walker's business).
+func walkVisitsOnPath(fl *Flow, p *Path, subj types.Object, typ string, want []string, visitors map[string]bool) (visits []walkVisit, appendIdx int, chainObj types.Object) {
+	info := fl.Info
+	appendIdx = -1
+	var skip *ast.CallExpr
+	fieldOf := func(i int, t ast.Expr) (string, bool) {
+		if t == nil {
+			return "?", false
+		}
+		if ObjOf(info, t) == subj {
+			return "", false
+		}
+		for _, w := range want {
+			if w != "" {
+				if base, m := FieldPath(info, t, typ, w); m && ObjOf(info, base) == subj {
+					return w, len(loopsOnPath(p, i)) > 0
+				}
+			}
+		}
+		loops := loopsOnPath(p, i)
+		for _, rs := range loops {
+			if !IsLoopElem(info, rs, t) {
+				continue
+			}
+			for _, w := range want {
+				if w != "" {
+					if base, m := FieldPath(info, rs.X, typ, w); m && ObjOf(info, base) == subj {
+						return w, true
+					}
+				}
+			}
+		}
+		return "?" + ExprStr(t), len(loops) > 0
+	}
+	for i, e := range p.Ev {
+		if skip != nil {
+			if e.Kind == EvInlEnd && e.Call == skip {
+				skip = nil
+			}
+			continue
+		}
+		switch e.Kind {
+		case EvAssign:
+			if len(e.Lhs) == 1 && len(e.Rhs) == 1 && !e.Deferred {
+				lo := ObjOf(info, e.Lhs[0])
+				if lo == nil || ShortTypeOfSliceElem(lo.Type()) != "workflow.Object" {
+					continue
+				}
+				switch rhs := ast.Unparen(e.Rhs[0]).(type) {
+				case *ast.CallExpr:
+					if fid, ok := rhs.Fun.(*ast.Ident); ok && fid.Name == "append" && len(rhs.Args) == 2 && ObjOf(info, rhs.Args[0]) == lo && ObjOf(info, rhs.Args[1]) == subj {
+						appendIdx, chainObj = i, lo
+					}
+				case *ast.CompositeLit:
+					if len(rhs.Elts) == 1 && ObjOf(info, rhs.Elts[0]) == subj {
+						appendIdx, chainObj = i, lo
+					}
+				}
+			}
+		case EvCall:
+			if e.Deferred {
+				continue
+			}
+			var v *walkVisit
+			if k := CalleeKey(e); visitors[k] && len(e.Call.Args) == 3 {
+				v = &walkVisit{kind: ShortFn(k), chain: e.Call.Args[1], pos: e.Pos, call: e.Call}
+				v.field, v.inLoop = fieldOf(i, e.Call.Args[2])
+				if e.Inlined {
+					skip = e.Call
+				}
+			} else if tv, ok := info.Types[e.Call.Fun]; ok && len(e.Call.Args) == 1 {
+				if sig, ok := tv.Type.Underlying().(*types.Signature); ok && sig.Params().Len() == 1 && ShortType(sig.Params().At(0).Type()) == "walk.Item" {
+					item := ast.Unparen(e.Call.Args[0])
+					if iid, ok := item.(*ast.Ident); ok {
+						// a local holding the item: its latest definition on the path
+						for j := i - 1; j >= 0; j-- {
+							a := p.Ev[j]
+							if a.Kind == EvAssign && len(a.Lhs) == len(a.Rhs) {
+								for k, l := range a.Lhs {
+									if SameObj(info, l, iid) {
+										item = ast.Unparen(a.Rhs[k])
+										j = -1
+										break
+									}
+								}
+							}
+						}
+					}
+					v = &walkVisit{kind: "yield", pos: e.Pos, call: e.Call}
+					if cl, ok := item.(*ast.CompositeLit); ok {
+						v.chain = keyValue(cl, "Chain")
+						v.field, v.inLoop = fieldOf(i, keyValue(cl, "Value"))
+					} else {
+						v.field = "?" + ExprStr(e.Call.Args[0])
+					}
+				}
+			}
+			if v == nil {
+				continue
+			}
+			v.idx = i
+			if n := len(visits); n > 0 && visits[n-1].call == v.call {
+				continue // the next iteration of the same loop
+			}
+			visits = append(visits, *v)
+		}
+	}
+	return
 }
